@@ -59,6 +59,8 @@ extern int (*env_sc_fault_hook)(int sc);
 extern unsigned long env_sc_calls[ENV_NSC];
 /* one-shot fault for the next eventfd/pipe creation (e.g. EMFILE), 0 = none */
 extern int env_fail_next_evfd_errno;
+extern int env_fail_next_evfd_thread;
+extern int env_fail_evfd_sticky;
 /* hook: EINTR injection on read/write/epoll_ctl (return 1 to inject) */
 extern int (*env_eintr_hook)(const char *what, int fd);
 extern void (*env_after_eagain_hook)(const char *what, int fd);   /* called when splice() just returned EAGAIN */
